@@ -608,4 +608,56 @@ def kvLt (desc : Bool) (a b : String × Int) : Bool := if desc then decide (a.2 
 def indexSortQuery (desc : Bool) (segs : List (List (String × Int))) : List (String × Int) :=
   kmerge (kvLt desc) (dropSeen [] (segs.map (sortKV desc)))
 
+
+/-! ### 11. stream index-ordered query (`banyand/stream/query_by_idx.go idxResult`) -/
+
+structure IElem where
+  sid : Nat
+  ts : Int
+  id : Nat
+deriving DecidableEq, Repr, Inhabited
+
+/-- `loadSortingData`: the running [minTimestamp, maxTimestamp] of the drained index entries – two independent
+    updates per entry (0 is the "unset" value of the minimum) -/
+def idxWindow (batch : List IElem) : Int × Int :=
+  batch.foldl (fun (w : Int × Int) e =>
+    (if decide (e.ts < w.1) || decide (w.1 = 0) then e.ts else w.1, if e.ts > w.2 then e.ts else w.2)) (0, 0)
+
+def partRange (p : List IElem) : Int × Int :=
+  let ts := p.map (·.ts)
+  (ts.foldl min (ts.head?.getD 0), ts.foldl max (ts.head?.getD 0))
+
+/-- one `Pull`: parts overlapping the window (`snapshot.getParts`), their elements inside the window whose id is in the
+    batch filter and whose series was seen in the batch (`scanParts`/`loadBlockCursor`), handed out in index order
+    (`mergeByTagValue`) -/
+def idxPage (parts : List (List IElem)) (batch : List IElem) : List Nat :=
+  let w := idxWindow batch
+  let sel := parts.filter fun p => !(decide (w.2 < (partRange p).1) || decide (w.1 > (partRange p).2))
+  let found := sel.flatten.filter fun e =>
+    decide (w.1 ≤ e.ts) && decide (e.ts ≤ w.2) && batch.any (fun d => d.id == e.id) && batch.any (fun d => d.sid == e.sid)
+  (batch.filter fun d => found.any fun e => e.id == d.id).map (·.id)
+
+def dedupIds : List Nat → List IElem → List IElem
+  | _, [] => []
+  | seen, e :: es => if seen.contains e.id then dedupIds seen es else e :: dedupIds (e.id :: seen) es
+
+/-- `Pull` until nil: batches of `MaxElementSize` index entries; an empty page ends the result -/
+def idxPages (parts : List (List IElem)) : List (List IElem) → List (List Nat)
+  | [] => []
+  | b :: bs => let pg := idxPage parts b; if pg.isEmpty then [] else pg :: idxPages parts bs
+
+def idxQuery (maxElem : Nat) (parts : List (List IElem)) (iter : List IElem) : List (List Nat) :=
+  idxPages parts ((chunk (max maxElem 1) iter).map (dedupIds []))
+
+/-! ### 12. distributed plans (trace, measure): limit/offset push-down to the data nodes and the liaison window -/
+
+/-- `unresolvedTraceDistributed.Analyze` / measure `unresolvedDistributed.Analyze`: the request sent to every data node
+    asks for `limit' + offset` rows (`limit'` = limit, or the default when unset) and carries no offset -/
+def pushedLimit (dflt limit offset : Nat) : Nat := (if limit = 0 then dflt else limit) + offset
+
+/-- liaison side: k-way merge of the node responses (`sort.NewItemIter`), then offset / limit' -/
+def distributedWindow (dflt limit offset : Nat) (desc : Bool) (nodes : List (List Int)) : List Int :=
+  let resp := nodes.map fun rows => (sortInts (!desc) rows).take (pushedLimit dflt limit offset)
+  window offset (if limit = 0 then dflt else limit) (kmerge (fun a b => if desc then decide (a > b) else decide (a < b)) resp)
+
 end Banyan.C09
